@@ -148,6 +148,31 @@ def leading_dot_unit_lines(draw):
     return {"kind": kind, "form": "leading-dot-unit" + ("-adjoining" if adjoining else ""), "line": ln}
 
 
+@st.composite
+def curves_double_dot_lines(draw):
+    """~Curves lines with '..': either the mnemonic ends in a period and the unit adjoins (`I. Res..OHM-M`, pinned by
+    lasio's own test of issue 264: name 'I. Res.', unit 'OHM-M') or the '..' stands in the description only
+    (`GR .GAPI 45 : gamma ray (see note..)`). Both shapes in ONE part: what is learnt from one line must not leak into
+    the parse of the next (a parse is a function of the line and the section)."""
+    ln = draw(S.item_line(kind="C", v12=False, times=False))
+    while ".." in ln["v"]:
+        ln["v"] = ln["v"].replace("..", ".")
+    if draw(st.booleans()):
+        ln["m"] = draw(st.sampled_from(["I. Res.", "RES.", "A.B.", "Ind. Deep.", "GR."]))
+        if ln["u"] == "":
+            ln["u"] = "OHM-M"
+        ln["p"][1] = ""  # the delimiter period adjoins the mnemonic's own last period
+        if ln["v"] != "" and ln["p"][2] == "":
+            ln["p"][2] = " "
+        form = "dotted-mnemonic"
+    else:
+        ln["d"] = (ln["d"] + " " + draw(st.sampled_from(["(see note..)", "etc..", "corrected.. twice", "x..y"]))).strip()
+        form = "descr-double-dot"
+    if draw(st.booleans()):
+        ln["d"] = (ln["d"] + " see note..").strip()
+    return {"kind": "C", "form": form, "line": ln}
+
+
 def clock_cases(tier):
     """Every HH:MM (24 x 60) x seconds {none, :SS} x date placement {none, before, after} x {Parameter, Well}."""
     for h in range(24):
@@ -195,8 +220,10 @@ def files(draw):
         return draw(st.sampled_from(TITLES[kind])) if draw(st.booleans()) else default
 
     secs = [lastext.section("V", ttl("V", "~Version"), [lastext.item("VERS", "", vers, "v"), lastext.item("WRAP", "", "NO", "w")])]
-    well = [lastext.item("STRT", "M", "1", "start"), lastext.item("STOP", "M", "2", "stop"),
-            lastext.item("STEP", "M", "1", "step"), lastext.item("NULL", "", "-999.25", "null")]
+    # the four value-first lines of a 1.2 ~Well section in any letter case
+    sp = draw(st.sampled_from([str.upper, str.upper, str.lower, str.title, lambda x: x[0] + x[1:].lower().swapcase().lower()]))
+    well = [lastext.item(sp("STRT"), "M", "1", "start"), lastext.item(sp("STOP"), "M", "2", "stop"),
+            lastext.item(sp("STEP"), "M", "1", "step"), lastext.item(sp("NULL"), "", "-999.25", "null")]
     well += draw(st.lists(S.item_line(kind="W", v12=v12), max_size=4))
     secs.append(lastext.section("W", ttl("W", "~Well"), well))
     curves = [lastext.item("DEPT", "M", "", "depth")] + draw(st.lists(S.item_line(kind="C", v12=v12), max_size=3))
@@ -216,6 +243,7 @@ def parts(tier):
         Hyp("no-period-lines", np_lines, quick=3000, thorough=60000),
         Hyp("numeric-unit-lines", numeric_unit_lines, quick=3000, thorough=60000),
         Hyp("leading-dot-unit-lines", leading_dot_unit_lines, quick=3000, thorough=60000),
+        Hyp("curves-double-dot-lines", curves_double_dot_lines, quick=3000, thorough=40000),
         Enum("clock-times-24x60", clock_cases),
         Hyp("lines-in-files", files, quick=3000, thorough=40000),
     ]
